@@ -42,7 +42,17 @@ def simple_name(max_comp=3):
 
 def distinct_names(n_min=0, n_max=6, name=None, prefix_free=False):
     name = rel_name() if name is None else name
-    s = st.lists(name, min_size=n_min, max_size=n_max, unique=True)
+
+    def stored(n):
+        # distinct also as write() stores them (leading separators and one drive prefix removed): 'C:' and 'c:' both become '.'
+        import re
+
+        m = n.lstrip("/")
+        if re.match(r"^[a-zA-Z]:", m):
+            m = m[2:].lstrip("/")
+        return m or "."
+
+    s = st.lists(name, min_size=n_min, max_size=n_max, unique_by=(lambda n: n, stored))
     if prefix_free:
         def pf(names):
             for a in names:
